@@ -99,10 +99,11 @@ def _compare(world: W.World, edge: dict, res: str, used: str, usedpx: str, obs: 
         return f"render framed as {used!r}, spec {op['used']!r}"
     if op["k"] == "render" and usedpx not in pxtab[op["um"]]:
         return f"render transmitted {usedpx} px data, spec (method {op['um']}) {pxtab[op['um']]}"
+    meth = to["m"] or [defaults["rm"].partition(":")[2]] * world.n  # untouched: the default method
     for i, p in enumerate(obs["px"]):
-        if p != "skip" and p not in pxtab[to["m"][i]]:
+        if p != "skip" and p not in pxtab[meth[i]]:
             return (f"node {i + 1}: render without override transmitted {p} px data, spec (effective method "
-                    f"{to['m'][i]}) {pxtab[to['m'][i]]}")
+                    f"{meth[i]}) {pxtab[meth[i]]}")
     for st in W.FAM_SETTINGS[world.fam]:
         got = [W.show(r) for r in obs["eff"][st]]
         # untouched settings show their defaults (they do not exist above / beside the style class)
